@@ -2,8 +2,8 @@ import FeatModel.Model.Solver.Krylov
 /-
 Model of `BiCGStab::_apply_intern` (kernel/solver/bicgstab.hpp), left-preconditioned variant (the default).
 Peculiarities modelled faithfully:
-* the preconditioner is applied to the initial defect *before* `_set_initial_defect`; if it fails the solver returns
-  `aborted` with the convergence-control state of the *previous* solve (`st0`);
+* `_set_initial_defect` is called first, then the preconditioner is applied to the initial defect (before the fix
+  of finding c07-edge:F6 the order was reversed and an early `aborted` kept the previous solve's counters);
 * after the first half step the defect norm is tested directly with `is_diverged` / `is_converged`
   (not through `_analyse_defect`: no `max_iter`, stagnation test; not through `_calc_def_norm`); the `success` test
   honours `min_iter` (`_num_iter + 1 >= _min_iter`) since the fix of finding c07-edge:F2, /repo commit 784169477;
@@ -55,16 +55,16 @@ def bicgLoop (S : Sys V α) (c : Config α) (rh0 : V) :
         let pt' := S.ops.axpy (S.ops.scale (S.ops.axpy pt qt (-omega)) beta) rt2 1
         bicgLoop S c rh0 fuel x2 r2 rt2 pt' rho' st' (calls + 2) hist'
 
-/-- `BiCGStab::_apply_intern(vec_sol, ·)` with `_vec_r = r`; `st0` = control state left by the previous solve -/
+/-- `BiCGStab::_apply_intern(vec_sol, ·)` with `_vec_r = r`; `st0` = control state left by the previous solve.
+    Since the fix of finding c07-edge:F6 (/repo commit 3d5803c40) `_set_initial_defect` comes first, then the
+    preconditioner is applied to the initial defect. -/
 def bicgIntern (S : Sys V α) (c : Config α) (st0 : State α) (x r : V) : Option (Result V α) :=
+  let d0 := S.nrm r
+  let (status, st) := setInitialDefect c st0 true d0
+  if status ≠ .progress then some ⟨status, x, st, [d0]⟩ else
   match S.prec 0 r with
-  | none => some ⟨.aborted, x, st0, []⟩
-  | some pt =>
-    let rho := S.ops.dot r pt
-    let d0 := S.nrm r
-    let (status, st) := setInitialDefect c st0 true d0
-    if status ≠ .progress then some ⟨status, x, st, [d0]⟩
-    else bicgLoop S c r (fuelOf c) x r pt pt rho st 1 [d0]
+  | none => some ⟨.aborted, x, st, [d0]⟩
+  | some pt => bicgLoop S c r (fuelOf c) x r pt pt (S.ops.dot r pt) st 1 [d0]
 
 def bicgApply (S : Sys V α) (c : Config α) (st0 : State α) (b : V) : Option (Result V α) :=
   bicgIntern S c st0 S.ops.zero b
